@@ -36,6 +36,8 @@ def main(argv):
     }
     ctx = {"F": F, "FM": FM, "tier": tier}
     results = mod.rules(ctx)
+    if tier == "thorough" and hasattr(mod, "thorough_rules"):
+        results += mod.thorough_rules(ctx)
     canary_results = []
     if hasattr(mod, "canary"):
         cdir = export.export_canary()
@@ -44,6 +46,22 @@ def main(argv):
     extra = None
     if hasattr(mod, "extra"):
         extra = mod.extra(ctx)
+    if tier == "thorough" and os.environ.get("VERIF_NO_SELFTEST") != "1" and export.REPO == "/repo":
+        # checker self-test: seeded single-site mutants on a scratch copy; a surviving mutant is a
+        # weakness of the checker reported in the evidence, not a violation of the property
+        import subprocess
+        st = subprocess.run([sys.executable, os.path.join(export.VERIF, "tools", "mutants.py"), "--json", prop],
+                            stdout=subprocess.PIPE, stderr=subprocess.STDOUT, text=True,
+                            env=dict(os.environ, VERIF_TIER="quick", VERIF_NO_SELFTEST="1"))
+        try:
+            import json as _json
+            data = _json.loads(st.stdout[st.stdout.index("{\"selftest\""):].splitlines()[0])
+        except Exception:
+            data = {"selftest": "could not parse", "tail": st.stdout[-400:]}
+        extra = dict(extra or {})
+        extra["checker_self_test"] = data.get("selftest", data)
+        sv = data.get("selftest", {}) if isinstance(data.get("selftest"), dict) else {}
+        print("self-test: %s mutants, %s killed, %s survived" % (sv.get("mutants"), sv.get("killed"), sv.get("survived")))
     report.finish(prop, tier, results, canary_results, mod.EXPLANATION, mod.ASSUMPTIONS, t0, meta, extra)
 
 
